@@ -83,6 +83,7 @@ struct SimThread {
     uint32_t access_countdown = 0;            // flavour B: instrumented accesses until the next decision point
     int create_fail_n = 0, create_fail_err = 0; // armed per calling thread
     int aff_fail_n = 0, aff_fail_err = 0;
+    int attr_fail_which = 0, attr_fail_err = 0;
 };
 
 struct MutexS { int owner = -1; int idx; };
@@ -111,6 +112,7 @@ struct Global {
     double p_spurious = 0, p_stall = 0, p_clockjump = 0;
     double p_clockfail_boot = 0; // CLOCK_BOOTTIME/MONOTONIC reads fail (EINVAL): only harnesses whose code is documented to tolerate it
     uint32_t access_mean = 0; // flavour B
+    int backtrace_mode = 0;
     uint64_t soft_budget = 0, hard_budget = 0;
     bool tail = false;
     uint64_t steps = 0;
@@ -627,6 +629,7 @@ void begin(const Plan &plan) {
     G.p_stall = permille(plan, "p_stall", 0);
     G.p_clockjump = permille(plan, "p_clockjump", 0);
     G.p_clockfail_boot = permille(plan, "p_clockfail_boot", 0);
+    G.backtrace_mode = (int)plan.get("backtrace_mode", 0);
     G.soft_budget = (uint64_t)plan.get("soft_budget", 200000);
     G.hard_budget = (uint64_t)plan.get("hard_budget", 2000000);
     G.cpu_cost = (uint64_t)plan.get("cpu_cost", 100);
@@ -700,6 +703,8 @@ Stats end() {
 
 void set_create_fail(int nth, int err) { if (tl_self) { tl_self->create_fail_n = nth; tl_self->create_fail_err = err; } }
 void set_affinity_fail(int nth, int err) { if (tl_self) { tl_self->aff_fail_n = nth; tl_self->aff_fail_err = err; } }
+void set_attr_fail(int which, int err) { if (tl_self) { tl_self->attr_fail_which = which; tl_self->attr_fail_err = err; } }
+int backtrace_mode() { return G.run_active ? G.backtrace_mode : 0; }
 const std::vector<PageInfo> &live_pages() { return G.pages; }
 void set_page_recycling(bool on) { G.recycle = on; }
 void *take_recycled_page() {
@@ -1026,6 +1031,28 @@ int __wrap_pthread_attr_setaffinity_np(pthread_attr_t *a, size_t n, const cpu_se
         return 0;
     }
     return __real_pthread_attr_setaffinity_np(a, n, s);
+}
+static int attr_fault(int which) {
+    if (!sim::active() || tl_self->attr_fail_which != which) return 0;
+    tl_self->attr_fail_which = 0;
+    fault_fired(which == 1 ? "pthread_attr_init_fail" : which == 2 ? "pthread_attr_setstacksize_fail" : "pthread_attr_getstacksize_fail");
+    log_event(PK_FAULT, nullptr, 600 + which);
+    return tl_self->attr_fail_err;
+}
+int __real_pthread_attr_init(pthread_attr_t *);
+int __real_pthread_attr_setstacksize(pthread_attr_t *, size_t);
+int __real_pthread_attr_getstacksize(const pthread_attr_t *, size_t *);
+int __real_backtrace(void **, int);
+int __wrap_pthread_attr_init(pthread_attr_t *a) { int e = attr_fault(1); return e ? e : __real_pthread_attr_init(a); }
+int __wrap_pthread_attr_setstacksize(pthread_attr_t *a, size_t n) { int e = attr_fault(2); return e ? e : __real_pthread_attr_setstacksize(a, n); }
+int __wrap_pthread_attr_getstacksize(const pthread_attr_t *a, size_t *n) { int e = attr_fault(3); return e ? e : __real_pthread_attr_getstacksize(a, n); }
+int __wrap_backtrace(void **buf, int n) {
+    int mode = sim::backtrace_mode();
+    if (mode == 1) return 0;
+    int got = __real_backtrace(buf, n);
+    if (mode == 2 && got > 1) got = 1;
+    if (mode == 3 && got > 2) got = 2;
+    return got;
 }
 int __wrap_pthread_setname_np(pthread_t t, const char *name) {
     if (sim::active()) return 0;
